@@ -4,7 +4,7 @@ from props.builder import PProg, in_subgroup
 from props.common import ProgRunner
 
 EXTRA_AUDITS = ["ComposerTie"]
-LEAN_TARGETS = ["Plonk.Props.C13", "Plonk.Props.ComposerTie"]
+LEAN_TARGETS = ["Plonk.Props.C13", "Plonk.Props.ComposerTie", "Plonk.Props.WidgetTie"]
 PROFILE = "checked"
 ASSUMPTIONS = ["JubJub group structure (order 8*r_J) as an explicit hypothesis of the 'P in [8]E <-> [r_J]P = O' corollary",
                "prover success coincides with 'every row identity holds' outside explicit bad-challenge sets"]
